@@ -241,6 +241,24 @@ theorem cad_only_on_identical {H : Hashes} (hH : HashOk H) {c : Cache V} (inv : 
   obtain ⟨_, h2, h3, h4, _⟩ := cad_spec hH inv k old
   exact ⟨h2, h3, h4⟩
 
+/-- **Expiry cleanup by a stale reader.** `PositiveCache.Get` / `NegativeCache.Get`
+remove an entry they found expired with `CompareAndDelete(key, thatEntry)`.
+Whatever was written to the key since the reader loaded `e` — as long as the
+key now holds a different entry `f` — the cleanup changes nothing: the newer
+value is never deleted by the stale reader. -/
+theorem stale_cleanup_never_removes_newer {H : Hashes} (hH : HashOk H) {c : Cache V} (inv : SegInv H c.data)
+    (k : Nat) (e f : V) (hf : sabs H c.data k = some f) (hne : f ≠ e) :
+    (c.compareAndDelete H k e).1 = c ∧ (c.compareAndDelete H k e).2 = false := by
+  obtain ⟨h2, _, h4⟩ := cad_only_on_identical hH inv k e
+  have hfalse : (c.compareAndDelete H k e).2 = false := by
+    cases hr : (c.compareAndDelete H k e).2 with
+    | false => rfl
+    | true =>
+      have := h2.mp hr
+      rw [hf] at this
+      exact absurd (Option.some.inj this) hne
+  exact ⟨h4 hfalse, hfalse⟩
+
 /-- **Cache histories.** Starting from `cache.New(size)`, after any sequence
 of Add / Remove / CompareAndSwap / CompareAndDelete executed one at a time:
 the structure invariant holds, the length never exceeds the configured size,
@@ -400,10 +418,12 @@ theorem cache_methods_delegate :
 
 /-- The critical sections the limiter model treats as atomic ARE single
 sections of the store's one lock (`Cleanup`: one `Lock`, no `RLock`, scan and
-delete together), and the length readers (`Len`, `SegmentCount`) take no lock
-at all — nothing a writer could queue behind. -/
+delete together), the length readers (`Len`, `SegmentCount`) take no lock
+at all — nothing a writer could queue behind — and the expiry cleanup of the
+answer caches' `Get` is a `CompareAndDelete`, never a removal by key alone. -/
 theorem limiter_sections_and_lockfree_len :
-    SdnsVerif.Gen.C16.limiter_cleanup_locks = [1, 0] ∧ SdnsVerif.Gen.C16.len_functions_touching_locks = [] := by
+    SdnsVerif.Gen.C16.limiter_cleanup_locks = [1, 0] ∧ SdnsVerif.Gen.C16.len_functions_touching_locks = [] ∧
+    SdnsVerif.Gen.C16.expiry_cleanup_not_conditional = [] := by
   decide
 
 /-- Every mutating method of the segmented table and the compare-then-act of
@@ -459,6 +479,15 @@ example : ((SegMap.new 4 0 : SegMap Nat).set realHashes 1 10).get realHashes 1 =
 example : limRun ⟨[(2, 9), (1, 5)], 2⟩ [LimOp.get 3 10 none, LimOp.cleanup 6, LimOp.get 2 11 none] :=
   ⟨by intro h; simp at h, trivial, by intro h; exact absurd h (by decide), trivial⟩
 example : ((([LimOp.get 3 10 none, LimOp.cleanup 6] : List LimOp).foldl limStep ⟨[(2, 9), (1, 5)], 2⟩).keys) = [3, 2] := by decide
+
+-- a stale reader holding token 1 cannot remove the newer token 2
+example : ∃ c : Cache Nat, SegInv realHashes c.data ∧ sabs realHashes c.data 7 = some 2 ∧
+    (c.compareAndDelete realHashes 7 1).2 = false := by
+  obtain ⟨_, ⟨s1, s2, _⟩, _⟩ := segmap_refines realHashes_ok (segmap_new_spec (V := Nat) realHashes 4 0).1 7 2
+  have h7 : sabs realHashes ((SegMap.new 4 0 : SegMap Nat).set realHashes 7 2) 7 = some 2 := by rw [s2 7, if_pos rfl]
+  exact ⟨⟨(SegMap.new 4 0).set realHashes 7 2, 4⟩, s1, h7,
+    (stale_cleanup_never_removes_newer realHashes_ok (c := ⟨(SegMap.new 4 0).set realHashes 7 2, 4⟩) s1 7 1 2 h7
+      (by decide)).2⟩
 
 example : CReach 2 ⟨2, 0⟩ ⟨2, 0⟩ ∧ CReach 2 ⟨2, 0⟩ ⟨3, 1⟩ :=
   ⟨CReach.refl _, CReach.step (CReach.refl _) (CStep.insert ⟨2, 0⟩ true)⟩
